@@ -5,10 +5,10 @@ ROOT = os.path.dirname(os.path.dirname(os.path.abspath(__file__)))
 
 # id -> (technique, level text, level_note, design_ref, has_fuzz)
 CHECKS = {
- "C17": ("property-based testing (proptest-driven byte decoders) + exhaustive enumeration of all 2^32 differences from 7 bases; oracle = RFC 1982 on wide integers",
-         "Generated pairs/addends with boundary bias checked against an independent RFC 1982 reference (comparison, antisymmetry, add > self, translation invariance, associativity, Timestamp agreement, YYYYMMDDHHmmSS value), plus a multi-threaded sweep of every difference b-a for several bases (complete in the thorough tier). For a 2-argument function whose behaviour depends only on b-a this is close to exhaustive.",
-         "Trusts rustc, proptest, and the 40-line reference in harness/src/refimpl/serial.rs. Serial::add with addend >= 2^31 panics by contract and is not generated. Version::next (zonetree) is private and is covered only via Serial::add(1).",
-         "DESIGN.md §4 C17"),
+ "C17": ("property-based testing + exhaustive enumeration (all 2^32 differences from 7 bases) against RFC 1982 on wide integers; metamorphic translation-invariance of the users' decisions (SOA serial bump, IXFR up-to-date decision)",
+         "Generated pairs/addends with boundary bias are checked against an independent RFC 1982 reference (comparison, antisymmetry, add > self, translation invariance, associativity, Timestamp agreement, YYYYMMDDHHmmSS value); a multi-threaded sweep covers every difference b-a for several bases (complete in the thorough tier) - for a function that depends only on b-a this is close to exhaustive. The decisions the anchored code takes with serials are checked too: commit(bump_soa_serial) must produce the RFC 1982 successor at every boundary, and the XFR middleware's IXFR answer must be invariant under adding the same amount to all serials involved (reference exchange far from boundaries vs the same exchange at/over the 2^31 and 2^32 boundaries).",
+         "Trusts rustc, proptest, the 40-line reference in harness/src/refimpl/serial.rs and the C10 harness pieces (zone model, sender driver) reused by the users-* sub-checks. Serial::add with addend >= 2^31 panics by contract and is not generated. Version::next (zonetree) is private and covered only via Serial::add(1) and the commit path. The IXFR check demands only translation invariance, not RFC 1995 behaviour (C10's business).",
+         "DESIGN.md §4 C17; notes/C17.md"),
 }
 NOT_YET = {}
 
